@@ -150,10 +150,9 @@ fn fixed_list() -> Vec<Pair> {
 pub fn run_check(ctx: &Ctx) {
     ctx.set_rule("pairs of unit spellings built for the same dimension vector (commensurable: free first spelling, second = random derived units + residual in base units) or for a perturbed/unrelated one, in the forms x U1 + y U2, x U1 - y U2, x U1 to U2 and the plain-number forms x + y U, y U + x, x - y U, y U - x, x to U; oracle: success iff the reference dimension vectors (hand-written table) are equal, exact value x + y*s(U2)/s(U1), plain numbers adopt the unit in both orders; non-trivial = the two spellings differ structurally or a plain-number form; distinct by query text");
     ctx.assume("proportional units only; each unit at most once per spelling; words are restricted to those the tool reads as declared (C05 judges the rest)");
-    let db = shared_db();
     let corpus: Vec<(String, QCase)> = load_corpus("C02");
     let cases: Vec<QCase> = corpus.into_iter().map(|c| c.1).collect();
-    ctx.run_list("corpus", &cases, |c| judge(db, c), |c| to_json(c));
+    ctx.run_list("corpus", &cases, |c| judge(shared_db(), c), |c| to_json(c));
     let fixed = fixed_list();
     ctx.run_list("named-pairs", &fixed, check, |p| make_case(p).map(|c| to_json(&c)).unwrap_or(Value::Null));
     let n = ctx.tier.pick(150_000u64, 3_000_000);
